@@ -6,7 +6,7 @@ CONSTANT Depths          \* [seq |-> lengths, nest |-> nesting depths]
 DepthsQuick == [seq |-> <<10, 100, 10000>>, nest |-> <<10, 100, 1000>>]
 DepthsThorough == [seq |-> <<10, 100, 1000, 3000, 10000, 30000>>, nest |-> <<10, 100, 1000, 3000, 10000>>]
 VARIABLE i
-All == Fixed \o RangeAdversarial \o KeyAdversarial \o PluralAdversarial \o NameAdversarial \o InheritsLoops \o ConfigAdversarial \o FormatterAdversarial \o Cat([d \in 1..Len(Depths.seq) |-> DeepSeq(Depths.seq[d])]) \o Cat([d \in 1..Len(Depths.nest) |-> DeepNest(Depths.nest[d])])
+All == Fixed \o RangeAdversarial \o KeyAdversarial \o PluralAdversarial \o NameAdversarial \o InheritsLoops \o ConfigAdversarial \o FormatterAdversarial \o NamespaceAdversarial \o Cat([d \in 1..Len(Depths.seq) |-> DeepSeq(Depths.seq[d])]) \o Cat([d \in 1..Len(Depths.nest) |-> DeepNest(Depths.nest[d])])
 \* one step prints every case (the sequence is built once)
 Init == i = 0
 Next == i = 0 /\ i' = 1 /\ LET A == All IN \A j \in DOMAIN A : PrintT(<<"CASE", ToJson(A[j])>>)
